@@ -17,10 +17,41 @@ use std::panic::{AssertUnwindSafe, catch_unwind};
 use std::str::FromStr;
 use std::sync::{Arc, Barrier};
 
-pub const VARIANTS: [&str; 15] = [
+pub const VARIANTS: [&str; 17] = [
     "sign", "verify-good", "verify-bad", "encrypt", "decrypt-good", "decrypt-bad", "decrypt-wrong-aad", "unwrap-good", "unwrap-bad",
-    "pw-unwrap-wrong-password", "unseal-good", "unseal-bad", "id", "clone-drop", "public-key",
+    "pw-unwrap-wrong-password", "unseal-good", "unseal-bad", "id", "clone-drop", "public-key", "pw-unwrap-good", "pw-unwrap-rejected-params",
 ];
+
+/// Progress heartbeat: an operation of the library that does not return is data, not a tool failure.  The watchdog
+/// reports what was running and ends the process with code 7 (the check turns that into a violation).
+pub mod watchdog {
+    use std::sync::Mutex;
+    use std::sync::atomic::{AtomicU64, Ordering};
+    use std::time::{SystemTime, UNIX_EPOCH};
+    static LAST: AtomicU64 = AtomicU64::new(0);
+    static WHAT: Mutex<String> = Mutex::new(String::new());
+    fn now() -> u64 {
+        SystemTime::now().duration_since(UNIX_EPOCH).map(|d| d.as_secs()).unwrap_or(0)
+    }
+    pub fn beat(what: impl FnOnce() -> String) {
+        LAST.store(now(), Ordering::Relaxed);
+        if let Ok(mut w) = WHAT.try_lock() {
+            *w = what();
+        }
+    }
+    pub fn start(limit_secs: u64) {
+        LAST.store(now(), Ordering::Relaxed);
+        std::thread::spawn(move || loop {
+            std::thread::sleep(std::time::Duration::from_secs(2));
+            let idle = now().saturating_sub(LAST.load(Ordering::Relaxed));
+            if idle > limit_secs {
+                let what = WHAT.lock().map(|w| w.clone()).unwrap_or_default();
+                println!("{}", serde_json::json!({"hang": true, "idle_secs": idle, "what": what}));
+                std::process::exit(7);
+            }
+        });
+    }
+}
 
 struct Keys<B: Backend> {
     local: LocalKey<B>,
@@ -40,6 +71,7 @@ struct Material {
     pie: String,
     pie_bad: String,
     pw: String,
+    pw_rejected_params: String,
     sealed: String,
     sealed_bad: String,
     deterministic_sign: bool,
@@ -73,7 +105,17 @@ fn material<B: Backend>(rng: &mut Prng) -> Material {
     let cost = if B::VER == 1 || B::VER == 3 { (2u64, 0, 1) } else { (8192, 1, 1) };
     let pw = lk.clone().password_wrap_with_params(b"right", &dp::pw_params::<B>(cost)).unwrap().to_string();
     let sealed = key_from_bytes::<B::V, Local>(&other).unwrap().seal(&ppk).unwrap().to_string();
+    // the same blob with the KDF's work factor zeroed (iteration count / Argon2 passes): parameters the KDF itself refuses or that
+    // cannot reproduce the tag - a failing operation either way
+    let pw_rejected_params = {
+        let hdr = dp::hdr_pw::<B, Local>();
+        let mut body = crate::b64::dec(&pw[hdr.len()..]).unwrap();
+        let at = if B::VER == 1 || B::VER == 3 { 32 } else { 24 };
+        body[at..at + 4].fill(0);
+        format!("{hdr}{}", crate::b64::enc(&body))
+    };
     Material {
+        pw_rejected_params,
         tok_local_bad: flip_mid(&tok_local),
         tok_public_bad: flip_mid(&tok_public),
         pie_bad: flip_mid(&pie),
@@ -132,6 +174,8 @@ fn apply<B: Backend>(v: &str, k: &Keys<B>, m: &Material, check: &Keys<B>) -> (Ou
             let s = if v == "unwrap-good" { &m.pie } else { &m.pie_bad };
             (r(PieWrappedKey::<B::V, Local>::from_str(s).and_then(|w| w.unwrap(&k.local)).map(|x| key_bytes(&x))), true, true)
         }
+        "pw-unwrap-good" => (r(PasswordWrappedKey::<B::V, Local>::from_str(&m.pw).and_then(|w| w.unwrap(b"right")).map(|x| key_bytes(&x))), true, true),
+        "pw-unwrap-rejected-params" => (r(PasswordWrappedKey::<B::V, Local>::from_str(&m.pw_rejected_params).and_then(|w| w.unwrap(b"right")).map(|x| key_bytes(&x))), true, true),
         "pw-unwrap-wrong-password" => (r(PasswordWrappedKey::<B::V, Local>::from_str(&m.pw).and_then(|w| w.unwrap(b"wrong")).map(|x| key_bytes(&x))), true, true),
         "unseal-good" | "unseal-bad" => {
             let s = if v == "unseal-good" { &m.sealed } else { &m.sealed_bad };
@@ -211,6 +255,7 @@ where
             continue; // RSA signing dominates
         }
         for (q, v) in h.iter().enumerate() {
+            watchdog::beat(|| format!("{} history {:?} step {} ({})", B::NAME, h, q, v));
             let r = catch_unwind(AssertUnwindSafe(|| apply::<B>(v, &shared, &m, &checker)));
             match r {
                 Ok((o, det, post)) => raws.push(Raw1 { mode: "history", t: 0, q, op: v.clone(), det, out: Some(o), post, hist: hi }),
@@ -234,6 +279,7 @@ where
             barrier.wait();
             for q in 0..nops {
                 let v = *trng.pick(&VARIANTS);
+                watchdog::beat(|| format!("{} thread {} op {} ({})", B::NAME, t, q, v));
                 // some clones are handed to a short-lived thread and dropped there (last owner drops elsewhere)
                 if q % 97 == 13 {
                     let c = shared.secret.clone();
@@ -294,6 +340,7 @@ where
 }
 
 pub fn run(rec: &mut Recorder, cases: &str, thorough: bool, seed: u64) -> Vec<Value> {
+    watchdog::start(120);
     let histories: Vec<Vec<String>> = serde_json::from_str(&std::fs::read_to_string(cases).expect("histories file")).expect("histories json");
     let mut v = Vec::new();
     for be in ALL {
